@@ -372,6 +372,62 @@ def gen_cte(rng, cat):
     return Q('cte', cat, body, op, osql, lim, off, [a, b], feats)
 
 
+def gen_chain(rng, cat):
+    """left-deep chains of 3-4 tables with mixed join kinds; WHERE is a conjunction of per-table tests with many
+    `IS [NOT] NULL` (the filters whose pushdown depends on which tables of the chain a later outer join pads with NULLs)"""
+    feats = ['chain']
+    n = 3 if rng.random() < 0.7 else 4
+    ts = pick_tables(rng, n, cat)
+    als = rng.sample(ALIASES, n)
+    quals = [a + '.' for a in als]
+    frm = table_ref(rng, cat, ts[0], als[0])
+    kinds = []
+    for k in range(1, n):
+        jk = rng.choice(['JOIN', 'INNER JOIN', 'LEFT JOIN', 'LEFT OUTER JOIN', 'RIGHT JOIN', 'RIGHT JOIN', 'FULL JOIN',
+                         'FULL OUTER JOIN'])
+        kinds.append(jk)
+        j = rng.randrange(k)
+        c1, c2 = rng.choice(['id', 'id', 'id', 'x']), rng.choice(['id', 'id', 'id', 'x'])
+        on = '%s%s = %s%s' % ((quals[k], c1, quals[j], c2) if rng.random() < 0.5 else (quals[j], c2, quals[k], c1))
+        if rng.random() < 0.15:
+            on += ' AND %s%s %s %d' % (rng.choice([quals[k], quals[j]]), rng.choice(COLS), rng.choice(CMP), rng.randrange(3))
+        frm += ' %s %s ON %s' % (jk, table_ref(rng, cat, ts[k], als[k]), on)
+    feats += ['join:' + k for k in kinds]
+    conj = []
+    for _ in range(rng.choice([1, 1, 2, 2, 3])):
+        q, c = rng.choice(quals), rng.choice(COLS)
+        r = rng.random()
+        if r < 0.5:
+            conj.append('%s%s IS NULL' % (q, c))
+            feats.append('isnull')
+        elif r < 0.65:
+            conj.append('%s%s IS NOT NULL' % (q, c))
+        elif r < 0.9:
+            conj.append('%s%s %s %d' % (q, c, rng.choice(CMP), rng.randrange(3)))
+        else:
+            conj.append('NOT (%s%s = %d)' % (q, c, rng.randrange(3)))
+    where = ' WHERE ' + ' AND '.join(conj) if rng.random() < 0.9 else ''
+    allcols = [(q, c) for q in quals for c in COLS]
+    if rng.random() < 0.5:
+        tg, names = ['*'], ['%s%s' % qc for qc in allcols]
+    else:
+        sel = rng.sample(allcols, rng.choice([2, 3, 4]))
+        tg = names = ['%s%s' % qc for qc in sel]
+    body = 'SELECT %s FROM %s%s' % (', '.join(tg), frm, where)
+    op, osql, lim, off = order_limit(rng, len(names), names, feats, 0.2, 0.15)
+    return Q('chain', cat, body, op, osql, lim, off, ts, feats)
+
+
+def gen_contents_match(rng, tables, maxrows):
+    """contents for join chains: keys mostly equal so that rows really join; other columns rarely NULL"""
+    out = {}
+    for it in tables:
+        n = rng.choice([1, 1, maxrows, maxrows, 0]) if maxrows > 1 else rng.choice([1, 1, 0])
+        out[it] = [(rng.choice([1, 1, 1, 2, None]), rng.choice([1, 1, 0, 2, None]), rng.choice([0, 1, 2, None]))
+                   for _ in range(n)]
+    return out
+
+
 def gen_orderlimit(rng, cat):
     """LEFT-join chains with a multi-key ORDER BY (keys from different tables, ASC/DESC mixes) and LIMIT; meant to be run
     on contents with ties in the leading key (feature 'ties')"""
@@ -513,6 +569,8 @@ def gen_query(rng):
     cat = rng.choice(['names', 'names', 'default', 'project', 'api3'])
     if r < 0.07:
         return gen_orderlimit(rng, cat)
+    if r < 0.17:
+        return gen_chain(rng, cat)
     if r < 0.55:
         return gen_join(rng, cat)
     if r < 0.68:
